@@ -64,6 +64,8 @@ DIRECTED = [
     ('Optional[TAnyBound]', '1'),
     ('RecJson', '[[[1]], 2, []]'), ('RecList[int]', '[[1], 2]'), ('RecList[int]', '[[[1]]]'), ('RecList[str]', "[[[['a']]]]"),
     ('Union[TAnyBound, int]', "'s'"),
+    # user generics over one TypeVar nested in each other, the inner one subscripted / left bare
+    ('Table[str, Bag[int]]', "Table({'a': Bag([1])})"), ('Table[tuple, Bag]', 'Table({(): Bag([object()])})'),
 ]
 
 
@@ -222,6 +224,43 @@ def main():
             for cs in (engine.ConfSpec(), engine.ConfSpec(is_random=False), engine.ConfSpec(strategy='On')):
                 check_case(W, 'directed', i, hsrc, hint, None, [x], cs, rng, ['directed:' + hsrc + ' <- ' + osrc], draw_cap)
             W.count('directed_cases')
+
+    # ---- modules whose globals reuse the name of a builtin type (lead worker) ----------------------------------
+    # (a command-line module with `def list(): ...` / `def type(): ...`, a variable called `set` ...): hints spelled
+    # without that name (typing.List[int], builtins.int) still mean the builtin type
+    if W.is_lead():
+        import types as _types
+        from beartype import beartype as _bt
+        shadowed = [('list', 'typing.List[int]', [1, 2]), ('dict', 'typing.Dict[str, int]', {'a': 1}), ('set', 'typing.Set[int]', {1}),
+                    ('tuple', 'typing.Tuple[int, ...]', (1,)), ('frozenset', 'typing.FrozenSet[int]', frozenset({1})),
+                    ('type', 'typing.Type[builtins.int]', bool), ('int', 'builtins.int', 3), ('str', 'typing.Optional[builtins.str]', 's'),
+                    # ... or of a builtin function the generated code calls
+                    ('len', 'typing.List[builtins.int]', [1, 2]), ('isinstance', 'typing.List[builtins.int]', [1]),
+                    ('next', 'typing.Set[builtins.int]', {1}), ('iter', 'typing.Dict[builtins.str, builtins.int]', {'a': 1})]
+        for i in (W.cases('shadow', len(shadowed)) if W.replay_case else range(len(shadowed))):
+            name, hsrc, obj = shadowed[i]
+            for form in ('def', 'value'):
+                modname = f'_c01_shadow_{name}_{form}'
+                mod = _types.ModuleType(modname)
+                sys.modules[modname] = mod
+                src = ('import builtins, typing\n'
+                       + (f'def {name}():\n    return "the {name} command"\n' if form == 'def' else f'{name} = "just a variable"\n')
+                       + f'def f(x: {hsrc}) -> {hsrc}:\n    return x\n')
+                try:
+                    exec(src, mod.__dict__)
+                    W.evaluate(('shadow', name, form))
+                    W.count('shadowed_builtin_cases')
+                    W.count('checks')
+                    try:
+                        got = _bt(mod.f)(obj)
+                        if got is not obj:
+                            raise AssertionError('return value not the object passed')
+                    except Exception as e:   # noqa
+                        W.violation('false-alarm:module-global-shadows-builtin-name',
+                                    f'module defining its own `{name}` ({form}): @beartype def f(x: {hsrc}) called with {obj!r} raised '
+                                    f'{type(e).__name__}: {short(engine.strip_ansi(str(e)), 200)}', 'shadow', i, dict(source=src, obj=repr(obj)))
+                finally:
+                    sys.modules.pop(modname, None)
 
     # ---- random cases ----------------------------------------------------------
     limit = 400000 if quick else 20000000
